@@ -745,6 +745,19 @@ func runAPI(cfg *config, prop string) *Report {
 					reqs = append(reqs, q)
 					reqs = append(reqs, reads()...)
 				}
+				// the same cash letter document added a second time (two cash letters under one ID), then removed by
+				// that ID (the reference model keeps none of them), reads, and a second removal of the now unknown ID
+				if cb := pick("valid-cashletter", nil); cb != nil && !frb {
+					var probe struct {
+						ID string `json:"id"`
+					}
+					if json.Unmarshal(cb.b, &probe) == nil && probe.ID != "" {
+						reqs = append(reqs, &apiReq{Kind: "add", ID: id, Body: cb.b, Src: "clean"}, &apiReq{Kind: "get", ID: id},
+							&apiReq{Kind: "rem", ID: id, CID: probe.ID})
+						reqs = append(reqs, reads()...)
+						reqs = append(reqs, &apiReq{Kind: "rem", ID: id, CID: probe.ID}, &apiReq{Kind: "get", ID: id})
+					}
+				}
 				directed = append(directed, directedHist{frb, reqs})
 			}
 		}
